@@ -151,6 +151,10 @@ def _run_instance(args):
             except core.Abort as e:
                 out["validation_errors"].append(f"sample {k}: abort {e}")
                 continue
+            except Exception as e:
+                # the code under test raises at this sample: nothing to compare (an undocumented exception is reported by the exploration)
+                out.setdefault("validation_skipped", []).append(f"sample {k}: {type(e).__name__}: {e}")
+                continue
             cd = {}
             for c in conc:
                 cd.setdefault(c[0], c)
